@@ -292,9 +292,14 @@ def classify_store(ev):
     return None
 
 
-def store_case(report, rng, store, keys, app_client):
-    mutate = rng.choice(["upper-pubkey", "spaced-pubkey", "spaced-sig", "ws-sig"]) if rng.random() < 0.12 else None
-    ev = signed_event(rng, keys, mutate)
+def store_case(report, rng, store, keys, app_client, tags=None):
+    if tags is None:
+        mutate = rng.choice(["upper-pubkey", "spaced-pubkey", "spaced-sig", "ws-sig"]) if rng.random() < 0.12 else None
+        ev = signed_event(rng, keys, mutate)
+    else:
+        # (e): an event with exactly these tags (one of a family of twins)
+        mutate = None
+        ev = sign_tags(rng, keys, tags, 1700000000 + rng.randrange(1000))
     accepted = copy.deepcopy(ev)
     payload = {"kind": "store", "backend": store.backend, "event": accepted}
     store.captured = []
@@ -437,6 +442,210 @@ def ws_frames_case(report, rng, backend, keys, tag):
         relay.close()
 
 
+# ---- (e) twins: values that Python calls equal (or spells alike) and that are different JSON ---------------------------
+#
+# 1 == 1.0 == True and 0 == 0.0 == -0.0 == False (with equal hashes), str(1) == str("1"): any table keyed by ==/hash or by
+# str() somewhere between acceptance and the socket (a memo of encoded tags / items / events, a dict of interned values,
+# a set used for de-duplication) serves the FIRST member of such a class it met for every later one.  A single event never
+# shows that, nor do two unrelated random events: it takes two events (or two tags of one event) that differ ONLY by such a
+# swap, served by the same process, and a comparison that tells the members apart.  A family = one tag skeleton with
+# "slots", filled 2..4 times with different members of the slot's class; the events of a family are served in a random
+# order (so either member is the first one the process meets), twice (the second pass reads whatever the first remembered),
+# partly with strings nobody has served before (nothing remembered from an earlier case) and partly with common ones.
+
+EQUAL_CLASSES = [[1, 1.0, True], [0, 0.0, -0.0, False], [2, 2.0], [7, 7.0], [-5, -5.0], [2 ** 31, float(2 ** 31)],
+                 [2 ** 53, float(2 ** 53)], [10 ** 15, 1e15]]
+SPELT_ALIKE = [[1, "1"], [0, "0"], [-5, "-5"], [1.0, "1.0"], [1.5, "1.5"], [True, "True", "true"], [False, "False", "false"],
+               [None, "None", "null", ""]]
+
+
+class _Slot:
+    def __init__(self, cls, wrap):
+        self.cls, self.wrap = cls, wrap
+
+    def fill(self, rng):
+        v = rng.choice(self.cls)
+        return [v] if self.wrap == "list" else {"k": v} if self.wrap == "dict" else ["a", {"n": v}] if self.wrap == "deep" else v
+
+
+def twin_family(rng):
+    """2..4 tag lists that differ only in which member of an equality class (three families in four) or of a spelt-alike
+    class stands in the slots; plus, sometimes, one tag list that holds two of them side by side (twins inside ONE event)"""
+    fresh = "%08x" % rng.getrandbits(32)
+    classes = EQUAL_CLASSES if rng.random() < 0.75 else SPELT_ALIKE
+    skeleton = []
+    for _ in range(rng.choice([1, 1, 2, 3])):
+        t = [rng.choice(["count", "flags", "x", "p", "e", "t", "n" + fresh])]
+        n = rng.choice([1, 1, 2, 3])
+        at = rng.randrange(n)
+        for j in range(n):
+            if j == at or rng.random() < 0.3:
+                # mostly a bare scalar; sometimes the scalar sits inside a nested array / object
+                t.append(_Slot(rng.choice(classes), rng.choice([None] * 8 + ["list", "dict", "deep"])))
+            else:
+                t.append(rng.choice(["x", "", fresh, "v" + fresh, rand_text(rng, 3)]))
+        skeleton.append(t)
+    want = rng.choice([2, 2, 3, 4])
+    variants, seen = [], set()
+    for _ in range(40):
+        tags = [[x.fill(rng) if isinstance(x, _Slot) else x for x in t] for t in skeleton]
+        if norm(tags) not in seen:
+            seen.add(norm(tags))
+            variants.append(tags)
+        if len(variants) == want:
+            break
+    if len(variants) >= 2 and rng.random() < 0.35:
+        variants.append(copy.deepcopy(variants[0]) + copy.deepcopy(variants[1]))
+    rng.shuffle(variants)
+    return variants, ("equal" if classes is EQUAL_CLASSES else "spelt-alike")
+
+
+def served_differs(accepted, served, verify):
+    """None, or how the served object is not field for field (JSON types included) the accepted event"""
+    if not isinstance(served, dict):
+        return "not an object: %r" % (served,)
+    if set(served) != set(accepted):
+        return "fields %s" % sorted(set(served) ^ set(accepted))
+    bad = [k for k in accepted if norm(served[k]) != norm(accepted[k])]
+    if bad:
+        return "%s: accepted %s, served %s" % (",".join(bad), json.dumps(accepted[bad[0]])[:90], json.dumps(served[bad[0]])[:90])
+    if verify:
+        from aionostr.event import Event
+        try:
+            e = Event(**served)
+            ok = e.verify() and e.id == Event.compute_id(e.pubkey, e.created_at, e.kind, e.tags, e.content)
+        except Exception:
+            ok = False
+        if not ok:
+            return "id / signature of the served event no longer verify"
+    return None
+
+
+def twins_frames_check(report, payload):
+    """util.event_as_json over the events of the payload, in that order, two passes"""
+    from nostr_relay import util
+    sid = payload["sid"]
+    for rnd in (1, 2):
+        for ev in payload["events"]:
+            frame = util.event_as_json(sid, _Ev(ev))
+            try:
+                j = json.loads(frame)
+                why = None if isinstance(j, list) and len(j) == 3 and j[0] == "EVENT" and j[1] == sid else "not an EVENT frame for %r" % sid
+                why = why or served_differs(ev, j[2], False)
+            except Exception as e:
+                why = "not JSON: %s" % e
+            if why:
+                report.property_failure("EVENT frame of an event whose tags differ from an earlier event's only by an equal-comparing "
+                                        "/ alike-spelt value (pass %d): %s" % (rnd, why), payload, None)
+                return False
+    return True
+
+
+def twins_frame_case(report, rng):
+    variants, cls = twin_family(rng)
+    evs = [{"id": rng.randbytes(32).hex(), "pubkey": rng.randbytes(32).hex(), "sig": rng.randbytes(64).hex(),
+            "created_at": 1700000000 + rng.randrange(1000), "kind": 1, "content": rand_text(rng, 4), "tags": tags} for tags in variants]
+    payload = {"kind": "twins-frame", "sid": rng.choice(["a", "sub1", 'a"b']), "events": evs}
+    twins_frames_check(report, payload)
+    report.case(("twins-frame", norm([e["tags"] for e in evs])), nontrivial=True, sample={"twins": [e["tags"] for e in evs][:3]})
+    report.count("twin_families_frames_" + cls)
+    report.count("twin_events_frames", len(evs))
+
+
+def sign_tags(rng, keys, tags, created_at):
+    from aionostr.event import Event
+    sk = rng.choice(keys)
+    ev = Event(pubkey=sk.public_key.hex(), content=rand_text(rng, 4), kind=1, created_at=created_at, tags=tags)
+    ev.sign(sk.hex())
+    return ev.to_json_object()
+
+
+def twins_ws_check(report, relay, payload, first=0):
+    """One relay process, real websocket sessions: the events of each group are published (while a live subscription is open
+    or not), then asked for by id, then fetched over HTTP.  Every EVENT frame (its raw text) and every HTTP body must be the
+    accepted event, JSON types included, and must still verify.  Returns the number of (event, path) observations"""
+    from lib.proto import Conn
+    backend = payload["backend"]
+    pub, sub = Conn(relay, remote_addr="1.2.3.4"), Conn(relay, remote_addr="1.2.3.5")
+    http = make_http(relay.store)
+    seen = 0
+
+    def look(texts, sid, by_id, path):
+        n = 0
+        for text in texts:
+            try:
+                f = json.loads(text)
+            except Exception:
+                report.property_failure("%s: the relay sent a frame that is not JSON: %r" % (backend, text[:120]), payload, None)
+                continue
+            if not (isinstance(f, list) and len(f) == 3 and f[0] == "EVENT" and f[1] == sid and isinstance(f[2], dict)):
+                continue
+            acc = by_id.get(f[2].get("id"))
+            if acc is None:
+                # (the subscription is open only while this group is published, the REQ names this group's ids)
+                report.property_failure("%s: %s serves an event with an id that was never accepted: %r" % (backend, path, text[:160]),
+                                        payload, None)
+                continue
+            n += 1
+            why = served_differs(acc, f[2], True)
+            if why:
+                report.property_failure("%s: %s of an event whose tags differ from another accepted event's only by an equal-comparing "
+                                        "/ alike-spelt value is not the accepted event (%s)" % (backend, path, why), payload, None)
+        return n
+
+    for gi, group in enumerate(payload["groups"]):
+        events, live = group["events"], group["live"]
+        by_id = {e["id"]: e for e in events}
+        accepted = {}
+        if live:
+            sub.send(["REQ", "live", {"kinds": [1], "since": 1}])
+        n0 = len(sub.out)
+        for e in events:
+            if pub.send_event(copy.deepcopy(e)):
+                accepted[e["id"]] = e
+        if live:
+            seen += look(sub.out[n0:], "live", by_id, "the live push")
+            sub.send(["CLOSE", "live"])
+        n0 = len(sub.out)
+        sid = "stored%d" % (first + gi)
+        sub.send(["REQ", sid, {"ids": list(by_id)}])
+        seen += look(sub.out[n0:], sid, by_id, "the stored answer")
+        sub.send(["CLOSE", sid])
+        for i, e in accepted.items():
+            body = relay.run(http(i))
+            if body is None:
+                continue        # (not retrievable: C06's business, as in store_case)
+            seen += 1
+            why = served_differs(e, body, True)
+            if why:
+                report.property_failure("%s: HTTP /e/<id> of an event whose tags differ from another accepted event's only by an "
+                                        "equal-comparing / alike-spelt value is not the accepted event (%s)" % (backend, why), payload, None)
+        report.count("twin_events_accepted_" + backend, len(accepted))
+    pub.close()
+    sub.close()
+    return seen
+
+
+def twins_ws_case(report, rng, backend, keys, families):
+    from lib.proto import Relay
+    groups = []
+    for _ in range(families):
+        variants, cls = twin_family(rng)
+        # the stored answer comes newest first: random distinct timestamps make its order independent of the order of submission
+        stamps = rng.sample(range(1700000000, 1700001000), len(variants))
+        groups.append({"live": rng.random() < 0.5, "class": cls, "events": [sign_tags(rng, keys, t, ts) for t, ts in zip(variants, stamps)]})
+        report.count("twin_families_ws_%s_%s" % (backend, cls))
+    payload = {"kind": "twins-ws", "backend": backend, "groups": groups}
+    relay = Relay(backend)
+    try:
+        seen = twins_ws_check(report, relay, payload)
+    finally:
+        relay.close()
+    report.count("twin_observations_" + backend, seen)
+    report.case(("twins-ws", backend, norm([[e["tags"] for e in g["events"]] for g in groups])), nontrivial=True,
+                sample={"backend": backend, "twins": [e["tags"] for e in groups[0]["events"]][:3], "live": groups[0]["live"]})
+
+
 def run(report, tier, seed):
     rng = random.Random(seed)
     drv = common.Driver()
@@ -449,6 +658,11 @@ def run(report, tier, seed):
         "with the same content/tag classes through add_event, get_event, query by id, live push and HTTP /e/<id> on "
         "both backends, about one in eight of them with non-canonical hex (upper-case pubkey, pubkey written in words separated "
         "by blanks / tabs / newlines, blanks inside or after the sig — all of which bytes.fromhex decodes); "
+        "twins: families of 2-4 events whose tags differ only in which member of a class of equal-comparing (1 / 1.0 / true, "
+        "0 / 0.0 / -0.0 / false, n / n.0) or alike-spelt (1 / \"1\", true / \"true\", null / \"null\" / \"\") values stands in a slot "
+        "(bare or nested), also side by side in one event, served by one process in random order: util.event_as_json twice over, "
+        "the store round trips, and real websocket sessions (live push, stored answer by id, HTTP /e/<id>; raw frame text, "
+        "type-strict comparison, id and signature re-verified) on both backends; "
         "non-trivial = the frame needs an escape or carries a non-string item")
     report.assumptions += ["the codecs rapidjson and the SQLite JSON column are exercised, not modelled; the LMDB record codec (msgpack "
                            "packb / unpackb as kv.encode_event / decode_event use them) is modelled (Model/MsgPack) and compared byte for "
@@ -479,6 +693,20 @@ def run(report, tier, seed):
         for i in range(10 if tier == "quick" else 150):
             for backend in ("sql", "kv"):
                 ws_frames_case(report, rng, backend, keys, i)
+        # (e) twins.  Sizes: nothing here depends on a volume — two members of one class served by one process are enough —
+        # so the numbers only buy variety of skeletons, classes, orders and paths (a memo that only remembers values it has
+        # met several times is covered by the second pass / by the three paths each event goes through)
+        for i in range(200 if tier == "quick" else 4000):
+            twins_frame_case(report, rng)
+        for i in range(40 if tier == "quick" else 600):
+            variants, cls = twin_family(rng)
+            for st in stores:
+                for tags in variants:
+                    store_case(report, rng, st, keys, https[st.backend], tags=copy.deepcopy(tags))
+                report.count("twin_families_store_%s_%s" % (st.backend, cls))
+        for i in range(4 if tier == "quick" else 60):
+            for backend in ("sql", "kv"):
+                twins_ws_case(report, rng, backend, keys, families=4)
     finally:
         for st in stores:
             st.close()
@@ -511,6 +739,17 @@ def replay(report, path):
             r = it.get("replay") or it.get("input")
             if r.get("kind") == "store":
                 replay_store(report, stores[r["backend"]], r["event"])
+            elif r.get("kind") == "twins-frame":
+                twins_frames_check(report, r)
+                report.case(("replay-twins-frame", repr(r)[:100]), nontrivial=True)
+            elif r.get("kind") == "twins-ws":
+                from lib.proto import Relay
+                relay = Relay(r["backend"])
+                try:
+                    twins_ws_check(report, relay, r)
+                finally:
+                    relay.close()
+                report.case(("replay-twins-ws", repr(r)[:100]), nontrivial=True)
             else:
                 from nostr_relay import util
                 frame = util.event_as_json(r["sid"], _Ev(r["event"])) if "event" in r else None
